@@ -14,6 +14,7 @@ import (
 	"github.com/irai/packet/fastlog"
 
 	"verif/harness/c01"
+	"verif/harness/c03"
 	"verif/harness/c07"
 	"verif/harness/c15"
 	"verif/harness/core"
@@ -23,6 +24,7 @@ var runners = map[string]core.Runner{
 	"C01": c01.Runner01,
 	"C02": c01.Runner02,
 	"C16": c01.Runner16,
+	"C03": c03.Runner,
 	"C07": c07.Runner,
 	"C15": c15.Runner,
 }
